@@ -219,3 +219,18 @@ def req_to_json(o):
 
 def resp_to_json(o):
     return _safe(_resp_to_json, o)
+
+
+def edit_in_place(o):
+    """flip / bump the first element of every list attribute of a message object IN PLACE (what a caller may do with a
+    decoded message); returns whether anything was touched"""
+    touched = False
+    for attr in ('bits', 'registers', 'values', 'events', 'message', 'write_registers', 'records'):
+        v = getattr(o, attr, None)
+        if isinstance(v, list) and v:
+            try:
+                v[0] = (not v[0]) if isinstance(v[0], bool) else (v[0] + 1 if isinstance(v[0], int) else v[0])
+                touched = True
+            except Exception:  # noqa
+                pass
+    return touched
